@@ -184,6 +184,11 @@ def unary_cases(draw, name, tier):
         x = draw(gen.utpm_data(D, P, shape, cdom[0], cplx=True, base_im=cdom[1]))
     else:
         x = draw(gen.utpm_data(D, P, shape, dom))
+    if P > 1 and draw(st.integers(0, 4)) == 0:
+        # neighbouring base points: the directions differ by a relative 1e-7 .. 1e-12 only (still different points)
+        eps = draw(st.sampled_from([1e-6, 1e-7, 1e-9, 1e-12]))
+        for p in range(1, P):
+            x[0, p] = x[0, 0] * (1.0 + eps * p) + (eps * p if not cplx else 0.0) * (x[0, 0] == 0)
     entry = draw(st.sampled_from(['global', 'global', 'method']))
     n = P * int(np.prod(shape, dtype=int))
     pos = None
@@ -234,6 +239,10 @@ def param_cases(draw, name, tier):
         case['a'] = draw(st.sampled_from([0.5, 1.0, 1.5, 2.0, 2.5]))
         case['b'] = draw(st.sampled_from([0.5, 1.5, 2.5, 0.75, 3.25]))
         case['x'] = draw(gen.utpm_data(D, P, shape, R((0.5, 4)), mag=0.5))
+    if P > 1 and draw(st.integers(0, 3)) == 0:
+        eps = draw(st.sampled_from([1e-6, 1e-7, 1e-9]))       # neighbouring (still different) base points per direction
+        for p in range(1, P):
+            case['x'][0, p] = case['x'][0, 0] * (1.0 + eps * p)
     return case
 
 
@@ -350,6 +359,9 @@ def kink_cases(draw, name, tier):
     away = R((0.05, 3), (-3, -0.05))
     if name in ('absolute', 'abs', 'fabs', 'sign'):
         case['x'] = draw(gen.utpm_data(D, P, shape, away))
+        if draw(st.integers(0, 3)) == 0:
+            # tiny but non-zero base points are NOT the kink: |x| has slope +-1 there, whatever the magnitude
+            case['x'][0] *= draw(st.sampled_from([1e-6, 1e-9, 1e-12, 1e-30]))
     elif name in ('minimum', 'maximum'):
         x = draw(gen.utpm_data(D, P, shape, R((-3, 3))))
         delta = draw(gen.float_array((1, P) + tuple(shape), away, sparse=False))
